@@ -228,6 +228,26 @@ func variants(c Case, ops []Val) []variant {
 	}); ok {
 		out = append(out, variant{"literal", s})
 	}
+	// a float is a float whatever its width: the same operation with the float operands handed over as float32 (values a float32 holds exactly)
+	f32ops := map[string]bool{"+": true, "-": true, "*": true, "/": true, "<": true, "<=": true, ">": true, ">=": true}
+	if (c.C.K == "bin" && f32ops[c.C.Op]) || (c.C.K == "un" && c.C.Op == "-") || (c.C.K == "tree" && f32ops[c.C.Op] && f32ops[c.C.Op2]) {
+		any := false
+		if s, ok := build(func(i int) (string, bool) {
+			if x, isF := ops[i].goValue().(float64); isF {
+				if float64(float32(x)) != x || math.IsInf(x, 0) || (c.C.K == "tree" && i < 2) {
+					return "", c.C.K == "tree" && i < 2 && float64(float32(x)) == x // (the inner result of a tree must not be rounded: its operands stay float64)
+				}
+				any = true
+				return "f" + names[i], true
+			}
+			if _, isS := ops[i].goValue().(string); isS {
+				return "", false
+			}
+			return names[i], true
+		}); ok && any {
+			out = append(out, variant{"float32", s})
+		}
+	}
 	return out
 }
 
@@ -241,6 +261,9 @@ func run(src string, ops []Val) (res interface{}, err error) {
 	names := []string{"a", "b", "c"}
 	for i, o := range ops {
 		e.Define(names[i], o.goValue())
+		if x, isF := o.goValue().(float64); isF {
+			e.Define("f"+names[i], float32(x))
+		}
 	}
 	return vm.Execute(e, nil, src)
 }
